@@ -40,9 +40,11 @@ def propConceal (first last : Nat) (ms out : List Message) : String :=
   if !(ms.zip out).all (fun p => !isRecord p.1 || !(uniqueNumB fnRecordPositionLat p.1 && uniqueNumB fnRecordPositionLong p.1) ||
       !(inStart first p.1 || inEnd last ms p.1) || posFree p.2) then "fail:hides" else
   -- laps and sessions: within well-formed records only (a duplicated position field survives `RemoveFieldByNum`)
-  if !(ms.all fun m => !isRecord m || (uniqueNumB fnRecordPositionLat m && uniqueNumB fnRecordPositionLong m)) then "ok" else
-  if lapsSeqB lapPH ms && !noLeakB lapPH first last ms out then "fail:lap-position-into-concealed" else
-  if lapsSeqB sesPH ms && !noLeakB sesPH first last ms out then "fail:session-position-into-concealed" else "ok"
+  -- exactly the hypotheses of `C20_conceal_lap_session_full` (the records move forward in time)
+  if !recUniqueB ms then "ok" else
+  if !recTimesIncB ms then "ok" else
+  if lapsSeqB lapPH ms && lapUniqueB lapPH ms && !noLeakB lapPH first last ms out then "fail:lap-position-into-concealed" else
+  if lapsSeqB sesPH ms && lapUniqueB sesPH ms && !noLeakB sesPH first last ms out then "fail:session-position-into-concealed" else "ok"
 
 def kfConceal (first _last : Nat) (ms : List Message) : String :=
   if unitsDisagree lapPH first ms || unitsDisagree sesPH first ms then "KF-C20-1" else "-"
